@@ -38,6 +38,23 @@ def parseCoins (s : State) (j : Json) (k : String) : Except String Coins := do
 def step (s : State) (j : Json) : Except String (State × Json × List Fired) := do
   let op ← jstr j "op"
   let out := (j.getObjVal? "out").toOption.getD Json.null
+  if op == "genesis" then
+    -- `ValidateGenesis` on the exported state or on one with a deposit clause broken: the verdict of the deposit clauses
+    let nd := s.denoms.length
+    let tunnels ← (← jarr j "tunnels").mapM fun e => match e with
+      | .arr #[a, .arr b] => do pure ((← asNat a), (← b.toList.mapM asNat))
+      | _ => throw "bad genesis tunnel"
+    let deps ← (← jarr j "deposits").mapM fun e => match e with
+      | .arr #[a, b, .arr c] => do pure ((← asNat a), (← asNat b), (← c.toList.mapM asNat))
+      | _ => throw "bad genesis deposit"
+    let ok := genesisDepositsOk nd tunnels deps
+    let iacc ← jbool out "accepted"
+    let mut fired : List Fired := []
+    if iacc && !ok then
+      fired := fired ++ [{ name := "genesis_with_unbacked_total_deposit_accepted", detail := mkObj [("variant", (j.getObjVal? "variant").toOption.getD Json.null)] }]
+    if !iacc && ok then
+      fired := fired ++ [{ name := "reachable_state_rejected_as_genesis", detail := mkObj [("err", (out.getObjVal? "err").toOption.getD Json.null)] }]
+    return (s, mkObj [("accepted", jb ok), ("err", (out.getObjVal? "err").toOption.getD Json.null)], fired)
   let (s', e) ← match op with
     | "create" => do pure (createOp s (← jnat j "acct") (← parseCoins s j "amt"))
     | "deposit" => do pure (depositOp s (← jnat j "tid") (← jnat j "acct") (← parseCoins s j "amt"))
